@@ -129,7 +129,11 @@ impl Report {
     }
 
     /// Record a violation. Returns true if it matched a known finding.
-    pub fn violation(&self, f: Finding) -> bool {
+    pub fn violation(&self, f: Finding) {
+        let _ = self.violation_inner(f);
+    }
+
+    fn violation_inner(&self, f: Finding) -> bool {
         let sig_key = f.signature.to_string();
         // known finding? (status "known" only; "fixed" entries suppress nothing)
         for k in &self.known {
